@@ -127,6 +127,13 @@ def restart (c : Cfg) (n : Node) (d : Disk) : Option Node :=
   | .error _ => none
   | .ok (p, _) => some { n with prod := p, q := Queue.reload { mem := [], disk := d.qdisk }, seen := d.seen }
 
+/-- what the execution layer answers in a step whose context is cancelled during `GetNextBatch`: nothing between the
+sequencer call and `ExecuteTxs` looks at the context (the store ignores it), so the step goes on exactly like an
+undisturbed one; an execution layer that honours the context refuses — after the early save.  When the step does not ask
+the sequencer (a block waits at `height + 1`, or production is refused) no cancellation happens. -/
+def cancelEx (c : Cfg) (n : Node) (aware : Bool) : Producer.ExecResp :=
+  if aware && asksSequencer c n then .fail else .ok
+
 /-! ## histories: operations of the node, with a crash after any number of the durable writes of the last operation
 
 The state of a history remembers the durable image before the last operation and the durable writes of the last
@@ -143,6 +150,8 @@ inductive Op
   | reapPutFails                   -- one `Reaper.SubmitTxs` during which the queue's write-ahead `Put` returns an error
   | produce                        -- one `publishBlock`
   | produceFail                    -- one `publishBlock` during which `ExecuteTxs` fails (or the node dies in it, when a `restart` follows)
+  | produceCancelled (aware : Bool) -- one `publishBlock` whose context is cancelled (the stop request arrives) while `GetNextBatch` is
+                                   -- running; `aware`: the execution layer honours the cancelled context (`ExecuteTxs` returns `ctx.Err()`)
   | produceSame                    -- one `publishBlock` whose `GetNextBatch` answer carries the SAME timestamp as the previous block
   | restart
   | crash (k : Nat)
@@ -175,6 +184,8 @@ def opStep (c : Cfg) (s : RunSt) : Op → Option RunSt
   -- marks nothing; the draining `GetTxs` has handed its transactions out all the same
   | .reapPutFails => some { s with before := diskOf s.n, ws := [], mempool := if s.drain then [] else s.mempool }
   | .produce => some { s with n := (produce c s.n).1, before := diskOf s.n, ws := (produce c s.n).2.1 }
+  | .produceCancelled aware =>
+    some { s with n := (produce c s.n (cancelEx c s.n aware)).1, before := diskOf s.n, ws := (produce c s.n (cancelEx c s.n aware)).2.1 }
   | .produceSame => some { s with n := (produce c s.n .ok .same).1, before := diskOf s.n, ws := (produce c s.n .ok .same).2.1 }
   | .produceFail => some { s with n := (produce c s.n .fail).1, before := diskOf s.n, ws := (produce c s.n .fail).2.1 }
   | .restart => recover c s s.ws.length
